@@ -6,7 +6,7 @@
 (*   (anchor and new elements range over ALL elements: absent anchors are  *)
 (*   rejected, present new elements are moves, the anchor itself and its   *)
 (*   neighbours are included), remove(e) (absent -> rejected), sort()      *)
-(* from a few initial lists, up to MaxDepth actions.                       *)
+(* from a table of initial situations, up to MaxDepth actions.             *)
 (*                                                                         *)
 (* Two uses, two kinds of .cfg:                                            *)
 (*  prop  : VIEW = the whole state record (ghosts in the fingerprint) and  *)
@@ -17,27 +17,40 @@
 (*          pre-state + the action).  A history is a sequence of tuples    *)
 (*            <<op, a, es, c, out, y, list-after>>                         *)
 (*          preceded by <<"IN", 0, initial list, 0, "ok", 0, list, dirs>>. *)
+(* The harness runs one single-worker TLC per (initial situation,          *)
+(* direction assignment): breadth-first search with one worker makes       *)
+(* TLCGet("level") the exact depth, so the bound is exact and the numbers  *)
+(* are reproducible; parallelism comes from the partition.                 *)
 (***************************************************************************)
 EXTENDS LinkedSet, Json
 
-CONSTANTS InitIds,    \* which initial lists
-          DirIds,     \* which direction assignments
-          MaxDepth,   \* number of actions after the initial state
-          PairMode,   \* 0: multi-element arguments off, 1: ordered pairs of distinct elements + <<1,1>>
+CONSTANTS InitIds,    \* which initial situations (table InitCase)
+          DirIds,     \* which direction assignments (table DirsOf)
+          MaxDepth,   \* number of actions after the initial situation
+          PairMode,   \* 0: one new element per call, 1: also ordered pairs of distinct elements + <<1,1>>
           WithRej,    \* include calls the code rejects (absent anchor / absent element)
-          EmitOn
+          EmitOn      \* record and print histories
 
 VARIABLES s, hist, last
 vars == <<s, hist, last>>
 
-InitList(id) == CASE id = 0 -> <<>>
-                  [] id = 1 -> <<1>>
-                  [] id = 2 -> <<1, 2>>
-                  [] id = 3 -> <<1, 2, 3>>
-                  [] id = 4 -> <<2, 1, 3>>
-                  [] id = 5 -> <<1, 2, 3, 4>>
+\* initial situations: a list and the cursor steps already taken (cursor ids, in order), so that the
+\* depth bound is spent on edits around parked cursors rather than on reaching them
+InitCase(id) ==
+  CASE id = 0  -> [l |-> <<>>,           pre |-> <<>>]
+    [] id = 1  -> [l |-> <<1, 2, 3>>,    pre |-> <<>>]
+    [] id = 2  -> [l |-> <<1, 2, 3>>,    pre |-> <<1>>]
+    [] id = 3  -> [l |-> <<1, 2, 3>>,    pre |-> <<1, 1>>]
+    [] id = 4  -> [l |-> <<1, 2, 3>>,    pre |-> <<1, 1, 1>>]
+    [] id = 5  -> [l |-> <<1, 2, 3>>,    pre |-> <<1, 2>>]
+    [] id = 6  -> [l |-> <<1, 2, 3>>,    pre |-> <<1, 1, 2>>]
+    [] id = 7  -> [l |-> <<1, 2, 3>>,    pre |-> <<1, 1, 2, 2>>]
+    [] id = 8  -> [l |-> <<1, 2>>,       pre |-> <<1>>]
+    [] id = 9  -> [l |-> <<1, 2, 3, 4>>, pre |-> <<1, 1>>]
+    [] id = 10 -> [l |-> <<1, 2, 3, 4>>, pre |-> <<1, 1, 2, 2, 2>>]
+    [] id = 11 -> [l |-> <<1, 2, 3, 4>>, pre |-> <<1, 1, 1, 2, 3>>]
 
-\* direction assignments for up to 3 cursors (cursor identities are interchangeable)
+\* direction assignments for up to 3 cursors
 DirsOf(id) == CASE id = 0 -> <<"f", "f", "f">>
                 [] id = 1 -> <<"b", "b", "b">>
                 [] id = 2 -> <<"f", "b", "f">>
@@ -49,6 +62,7 @@ Multi   == Singles \cup Pairs
 
 A(op, a, es, c) == [op |-> op, a |-> a, es |-> es, c |-> c]
 
+\* Graph.sort() on nodes wired so that ascending ids is the only topological order
 SortedLive(st) == LET S == LsSet(LiveSeq(st))
                       f[i \in 0..NElem] == IF i = 0 THEN <<>> ELSE IF i \in S THEN Append(f[i - 1], i) ELSE f[i - 1]
                   IN f[NElem]
@@ -64,23 +78,34 @@ Acts(st) ==
 
 Entry(a, r) == <<a.op, a.a, a.es, a.c, r.out, r.y, LiveSeq(r.s)>>
 
+\* run a sequence of cursor steps, extending the history
+RECURSIVE PreRun(_, _, _)
+PreRun(st, h, cs) ==
+  IF cs = <<>> THEN [s |-> st, h |-> h]
+  ELSE LET a == A("ST", 0, <<>>, Head(cs))
+           r == Apply(st, a)
+       IN PreRun(r.s, Append(h, Entry(a, r)), Tail(cs))
+
 Init ==
   \E i \in InitIds, d \in DirIds :
-     /\ s = ExtendAll(EmptyState(DirsOf(d)), InitList(i))
-     /\ hist = << <<"IN", 0, InitList(i), 0, "ok", 0, InitList(i), SubSeq(DirsOf(d), 1, NCur)>> >>
-     /\ last = [a |-> A("IN", 0, <<>>, 0), out |-> "ok", y |-> 0]
+     LET ic == InitCase(i)
+         s0 == ExtendAll(EmptyState(DirsOf(d)), ic.l)
+         h0 == << <<"IN", 0, ic.l, 0, "ok", 0, ic.l, SubSeq(DirsOf(d), 1, NCur)>> >>
+         pr == PreRun(s0, h0, SelectSeq(ic.pre, LAMBDA c : c <= NCur))
+     IN /\ s = pr.s
+        /\ hist = pr.h
+        /\ last = [a |-> A("IN", 0, <<>>, 0), out |-> "ok", y |-> 0]
 
 Next ==
-  \E a \in Acts(s) :
+  /\ TLCGet("level") <= MaxDepth        \* depth bound: level of the current state (initial state = 1)
+  /\ \E a \in Acts(s) :
      /\ s.nb + Need(s, a) <= MaxBox
-     /\ \E r \in {Apply(s, a)} :      \* (evaluated once; an action-level LET is re-evaluated per use)
+     /\ \E r \in {Apply(s, a)} :      \* evaluated once (an action-level LET is re-evaluated per use)
         /\ s' = r.s
-        /\ hist' = Append(hist, Entry(a, r))
+        /\ hist' = IF EmitOn THEN Append(hist, Entry(a, r)) ELSE hist
         /\ last' = [a |-> a, out |-> r.out, y |-> r.y]
 
 Spec == Init /\ [][Next]_vars
-
-Bound == TLCGet("level") <= MaxDepth + 1
 
 ViewAll  == s
 ViewMech == <<s.val, s.nxt, s.prv, s.nb, s.boxOf, s.len, s.cur>>
